@@ -22,6 +22,12 @@ var validTemplates = []string{
 	"send [USD 9] (\n source = { 1/2 from @a 1/4 from @b remaining from @c }\n destination = { 50% to @d 25% to { max [USD 1] to @e remaining kept } remaining kept }\n)",
 	"send [USD 10] (\n source = { 9223372036854775808/18446744073709551616 from @a 9223372036854775808/18446744073709551616 from @b }\n destination = { 1/18446744073709551616 to @d 18446744073709551615/18446744073709551616 to @e }\n)",
 	"send [USD 10] (\n source = @world\n destination = { 50.00000000000000000000000000000000000000000000000000000000000000% to @d remaining to @e }\n)",
+	// valid by the static rules, but with warnings: none of them may be of error severity
+	"vars {\n number $num1\n}\nsend [USD 1] (\n source = @a\n destination = @d\n)",
+	"send [USD 1] (\n source = { 1/2 from @a 1/2 from @b remaining from @c }\n destination = { 100% to @d remaining kept }\n)",
+	"send [USD 1] (\n source = { @a @a @world @b }\n destination = @d\n)",
+	"send [USD 1] (\n source = @world allowing unbounded overdraft\n destination = @d\n)",
+	"vars {\n portion $por1\n}\nsend [USD 1] (\n source = @world\n destination = { 1/2 to @d $por1 to @e }\n)",
 	"vars {\n monetary $mon1 = overdraft(@a, USD)\n}\nsend [USD *] (\n source = max $mon1 from { 1/2 from @a 1/2 from @world }\n destination = @d\n)",
 }
 
